@@ -15,21 +15,23 @@ func (p *Pool) lazyResend() {
 
 	p.sendWg.Add(1)
 	go func() {
-		defer func() {
-			p.lazySendM.Unlock()
-			p.sendWg.Done()
-		}()
+		defer p.sendWg.Done()
 
 		for {
 			p.listM.Lock()
 			n := p.el.PopBack()
-			p.listM.Unlock()
 			if n == nil {
+				// give up the flusher role while still holding the list lock, so that a
+				// concurrent lazySend either had its event popped or becomes the flusher
+				p.lazySendM.Unlock()
+				p.listM.Unlock()
 				return
 			}
+			p.listM.Unlock()
 
 			select {
 			case <-p.ctx.Done():
+				p.lazySendM.Unlock()
 				return
 			case p.ch <- n.V():
 				p.pool.Release(n)
